@@ -1,4 +1,5 @@
 import MtailVerif.Model.Formats
+import MtailVerif.Proofs.Formats
 import MtailVerif.Proofs.Skeletons
 /-! # C22 — Every export format reports each label set's own value
 
@@ -76,6 +77,35 @@ example :
     graphiteLines [] m ⟨[(str "k", str "b")], d2⟩ =
       [str "p.h.k.b.bin_1 0 20\n", str "p.h.k.b.bin_inf 2 20\n", str "p.h.k.b.count 2 20\n", str "p.h.k.b 5 20\n"] := by
   decide
+
+/-- C22 (a record names its own label set): two label sets of a metric (as many labels each) whose
+    records carry the same name have the same keys with the same values, once separator bytes in
+    them are written as the replacement text — for the graphite/statsd naming (`.`) and the
+    collectd naming (`-`), any metric name, any keys and values.  So distinct label sets never share
+    a record name except by the replacement of separators. -/
+theorem record_name_determines_label_set (name : Bytes) (l1 l2 : FLabelSet) (sep : UInt8)
+    (hsep : sep = dot ∨ sep = dash) (hlen : l1.labels.length = l2.labels.length)
+    (h : formatLabels name l1.labels sep sep us = formatLabels name l2.labels sep sep us) :
+    (sortByKey l1.labels).map (fun kv => (esc sep us kv.1, esc sep us kv.2)) =
+    (sortByKey l2.labels).map (fun kv => (esc sep us kv.1, esc sep us kv.2)) :=
+  formatLabels_determines name _ _ sep us (by rcases hsep with rfl | rfl <;> decide) hlen h
+
+/-- … and for label keys and values without separator bytes (the stores the property speaks about)
+    the name determines the label set outright: distinct label sets get distinct record names -/
+theorem distinct_label_sets_distinct_names (name : Bytes) (l1 l2 : FLabelSet) (sep : UInt8)
+    (hsep : sep = dot ∨ sep = dash) (hlen : l1.labels.length = l2.labels.length)
+    (h1 : ∀ kv ∈ l1.labels, sep ∉ kv.1 ∧ sep ∉ kv.2) (h2 : ∀ kv ∈ l2.labels, sep ∉ kv.1 ∧ sep ∉ kv.2)
+    (hne : sortByKey l1.labels ≠ sortByKey l2.labels) :
+    formatLabels name l1.labels sep sep us ≠ formatLabels name l2.labels sep sep us := by
+  intro h
+  exact hne (formatLabels_injective name _ _ sep us (by rcases hsep with rfl | rfl <;> decide) hlen h1 h2 h)
+
+/-- non-vacuity: label sets that agree on a long prefix and differ in the last value (what a name
+    clipped at a fixed length would merge) get different names; a separator inside a value is what
+    can make two names coincide -/
+example : formatLabels (str "m") [(str "a", str "xxxxxxxxxxxxxxxxxxxxxxxxxxxxxxxxxxxxxxxxxxxxxxxxxxxxxxxxxxxxxxxxxxxx"), (str "b", str "1")] dash dash us
+        ≠ formatLabels (str "m") [(str "a", str "xxxxxxxxxxxxxxxxxxxxxxxxxxxxxxxxxxxxxxxxxxxxxxxxxxxxxxxxxxxxxxxxxxxx"), (str "b", str "2")] dash dash us := by decide
+example : formatLabels (str "m") [(str "k", str "a-b")] dash dash us = formatLabels (str "m") [(str "k", str "a_b")] dash dash us := by decide
 
 /-! ### regenerated control skeletons (written by lib/wire_skeletons.py) -/
 /-- Obligations over regenerated facts: the functions this property's model stands for have the
